@@ -33,8 +33,10 @@ def plan(tier):
                  (3, [("dense", 1, 3)], CONF_Q[::2] + CONF_Q[8:9]),
                  (2, [("near", 2, 3)], CONF_Q[::2]), (3, [("near", 2, 2)], CONF_Q[4:8])]
     else:
-        specs = [(2, [("dense", 1, 7), ("bounded", 3, 8, 10)], CONF_T), (3, [("dense", 1, 4)], CONF_Q),
-                 (2, [("near", 2, 4)], CONF_Q), (3, [("near", 2, 3)], CONF_Q[4:8])]
+        specs = [(2, [("dense", 1, 6)], CONF_T), (2, [("bounded", 3, 7, 9)], CONF_Q[::2]),
+                 (3, [("dense", 1, 4)], CONF_Q[::2]),
+                 (2, [("near", 2, 3)], CONF_Q), (2, [("near", 4, 4)], CONF_Q[::3]),
+                 (3, [("near", 2, 2)], CONF_Q[4:8])]
     tasks, descs = [], []
     for N, regimes, conf in specs:
         tasks += pairs.regime_tasks(N, regimes, ["py", "pyx"], extra={"conf": conf, "tf": tf})
